@@ -103,7 +103,9 @@ def _where(draw):
         if how == "map" and mapped:
             how = "template"
         name = f"T{i}"
-        inp = [prev_out] if prev_out and draw(st.booleans()) else [f"src{i}.txt"]
+        # a consumer may spell its producer's file differently (./x, d/../x): it is the same file
+        inp = [draw(st.sampled_from(["", "", "./", "nested/../", ".//"])) + prev_out] if prev_out and draw(st.booleans()) \
+            else [f"src{i}.txt"]
         out = f"out{i}.txt"
         if how == "map":
             mapped = True
@@ -120,7 +122,7 @@ def _where(draw):
             targets.append(t)
             prev_out = out if not t.get("twd") else None
     return {"kind": "where", "explicit_wd": explicit, "targets": targets,
-            "missing_outputs": draw(st.booleans())}
+            "missing_outputs": draw(st.booleans()), "touch_from": draw(st.integers(0, 5))}
 
 
 NAME_MUST_ACCEPT = st.from_regex(r"[A-Za-z_][A-Za-z0-9_]{0,12}", fullmatch=True)
@@ -318,6 +320,29 @@ def run_where(case):
         for d in (os.path.join(proj_dir, "nested"), os.path.join(proj_dir, "nested", "deeper"), other, os.path.dirname(other)):
             if os.path.exists(os.path.join(d, ".gwf")) or os.path.exists(os.path.join(d, ".gwfconf.json")):
                 viols.append(Violation({"kind": "state-outside-project"}, d))
+        # a command that writes files: `gwf touch` from one of the invoking directories makes the declared files of the
+        # project - not files of the same names in the invoking directory - and everything is completed afterwards
+        if not viols and case.get("touch_from") is not None:
+            tag, cwd, pre = invocations[case["touch_from"] % len(invocations)]
+            before = set(os.listdir(cwd)) | {"__pycache__"}
+            rt = p.gwf(["-b", "slurm"] + pre + ["touch"], cwd=cwd, syspath0=cwd, purge_root=base)
+            after = set(os.listdir(cwd)) | {"__pycache__"}
+            labels.add("touch-from-" + tag)
+            if rt.code != 0 or rt.crashed:
+                viols.append(Violation({"kind": "touch-failed", "from": tag}, f"from {tag}: " + rt.brief()))
+            else:
+                if cwd != proj_dir and after != before:
+                    viols.append(Violation({"kind": "created-in-invoking-dir", "from": tag, "cmd": "touch"},
+                                           f"`gwf touch` from {tag} created {sorted(after - before)} in the invoking directory"))
+                missing = sorted(q for q in R.producers if not os.path.exists(os.path.join(proj_dir, q)))
+                if missing:
+                    viols.append(Violation({"kind": "touch-did-not-make-the-declared-files", "from": tag},
+                                           f"after `gwf touch` from {tag} these outputs (relative to the project) do not exist: {missing}"))
+                rs2 = p.gwf(["-b", "slurm", "status"], cwd=proj_dir, syspath0=proj_dir, purge_root=base)
+                bad = {n: s_ for n, s_ in rs2.status_rows().items() if s_ != "completed" and R.by_name.get(n) and R.by_name[n].outset}
+                if rs2.code != 0 or bad:
+                    viols.append(Violation({"kind": "not-completed-after-touch", "from": tag},
+                                           f"after `gwf touch` from {tag}, status from the project root: {bad or rs2.brief()}"))
     finally:
         shutil.rmtree(base, ignore_errors=True)
     tm = any(t["how"] in ("template", "map") and not t.get("twd") for t in case["targets"])
